@@ -53,6 +53,20 @@ func libDump(expr string) (dump string, err error, pan interface{}) {
 	if (err2 == nil) != (err == nil) || dump2 != dump {
 		return dump2, err2, nil
 	}
+	if err2 == nil {
+		// the tree belongs to the caller now: it must still say the same after the Parser has
+		// parsed other expressions (shorter, longer, failing)
+		for _, other := range []string{"(x && y) || z == w", "a.b.c | d.e", "!a", "x[?y < z || w].v | [0]", "a ||"} {
+			_, _, _ = sharedParse(other)
+		}
+		var again string
+		if pan3 := safely(func() { again = jp.VerifDumpAST(n2) }); pan3 != nil {
+			return "", nil, pan3
+		}
+		if again != dump {
+			return again, nil, nil
+		}
+	}
 	return
 }
 
